@@ -1190,12 +1190,20 @@ peg::parser! {
             }
 
         pub(crate) rule literal_array_element() -> (Option<String>, String) =
-            "[" inner:$((!"]" [_])*) "]=" value:$([_]*) {
+            "[" inner:$(literal_array_element_key_piece()*) "]=" value:$([_]*) {
                 (Some(inner.to_owned()), value.to_owned())
             } /
             value:$([_]+) {
                 (None, value.to_owned())
             }
+
+        // N.B. A ']' that is quoted does not end the key.
+        rule literal_array_element_key_piece() -> () =
+            ansi_c_quoted_text() {} /
+            single_quoted_literal_text() {} /
+            double_quoted_sequence() {} /
+            "\\" [_] {} /
+            !"]" [_] {}
 
         rule assignment_name() -> ast::AssignmentName =
             aen:array_element_name() {
